@@ -286,7 +286,14 @@ func opTake(g *G) bool {
 		retire = false
 	}
 	g.bump(fmt.Sprintf("take:retire_on_take=%v/auto-retire-disabled=%v", retire, b.DisableAutoRetire))
-	g.Do(g.App.MsgBasketTake(us[i], b.Denom, g.intSpelling(amt), retire, g.jur(), "take"), "take "+kind)
+	tk := g.App.MsgBasketTake(us[i], b.Denom, g.intSpelling(amt), retire, g.jur(), "take")
+	if retire && g.R.Chance(1, 4) {
+		// the deprecated retirement_location field instead of retirement_jurisdiction (still supported)
+		tk.RetirementLocation, tk.RetirementJurisdiction = tk.RetirementJurisdiction, ""
+		g.bump("take:deprecated-retirement-location")
+		kind += " (deprecated retirement_location field)"
+	}
+	g.Do(tk, "take "+kind)
 	return true
 }
 
